@@ -23,6 +23,8 @@ NINP = 2
 F901 = -1
 FIXS1 = -1
 FIXS2 = -1
+PRELUDE = 0
+PKG1P = "[1] U [2]"  # what the package resolver answers for [1P] (tree 1)
 FLAG2_FREE = 1
 INVALID = "[2] O [501]"
 INVALID_MORE = ("Muss ([2] U [3]) O [902]", "Muss [902] X ([3] O [2])", "X [2][901] O [902]", "Muss [501] X [901]", "Muss [1] Kann [3] O [502] U [503]")
@@ -171,12 +173,27 @@ def tree_glue(s1: int, s2: int, s3: int, soll: bool, iv: int, f901: bool, flag2:
         return True
     flag2_c = bool(xs.R(flag2))
     alpha = {"1": env.STATES[s1], "2": env.STATES[s2], "3": env.STATES[s3]}
-    env.setup(rc=alpha, fc={"901": f901_c, "902": lambda text: bool(text) and len(text) > 3}, hints={"501": "Hinweis 501", "502": "Hinweis 502", "503": "Hinweis 503"}, packages={"1P": "[1] U [2]"})
+    env.setup(rc=alpha, fc={"901": f901_c, "902": lambda text: bool(text) and len(text) > 3}, hints={"501": "Hinweis 501", "502": "Hinweis 502", "503": "Hinweis 503"}, packages={"1P": PKG1P})
     spec = _tree(TREE, INP[iv])
     d = dict(s1=s1, s2=s2, s3=s3, soll=soll, iv=iv, f901=f901, flag2=flag2)
     states = {k: v.name for k, v in alpha.items()}
+    if PRELUDE and MODE in ("C13", "C16"):
+        # what was validated before must not matter: the same AHB under ANOTHER package definition first (result discarded)
+        with xs.nt():
+            import inject
+
+            from ahbicht.content_evaluation.token_logic_provider import TokenLogicProvider
+
+            res = inject.instance(TokenLogicProvider).get_package_resolver(env.FMT, env.FV)
+            res._t["1P"] = "[2] O [501]" if PKG1P == "[1] U [2]" else "[1] U [2]"
+        _validate(_tree(TREE, INP[iv]), soll_c)
+        with xs.nt():
+            res._t["1P"] = PKG1P
+    if PRELUDE and MODE == "C14":
+        # what was validated before must not matter: the very same AHB under the OTHER flag value first (result discarded)
+        _validate(_tree(TREE, INP[iv]), not soll_c)
     got = _validate(spec, soll_c)
-    ctx = f"tree {TREE}, states {states}, soll_is_required={soll_c}, inputs {INP[iv]}"
+    ctx = f"tree {TREE}, states {states}, soll_is_required={soll_c}" + (f" (validated with soll_is_required={not soll_c} just before)" if PRELUDE and MODE == "C14" else "") + (f" (package 1P = '{PKG1P}'; validated with another definition of 1P just before)" if PRELUDE and MODE in ("C13", "C16") else "") + f", inputs {INP[iv]}"
     if MODE == "C14":
         spec2 = rewrite(_tree(TREE, INP[iv]), lambda e: re.sub(r"(?i)\b(soll|s)\b(?=\s*(\[|\(|$|[A-Za-z]))", "Muss" if soll_c else "Kann", e))
         got2 = _validate(spec2, flag2_c)
